@@ -139,7 +139,7 @@ func (c *Ctx) flagRegOf(info *types.Info, call *ast.CallExpr) *flagReg {
 }
 
 func checkC19(c *Ctx) {
-	c.Decides("PRESENCE: no command decides on whether an option was given (Flags().Changed) rather than on its value, and no flag has a NoOptDefVal: both make passing the documented default differ from omitting the option")
+	c.Decides("PRESENCE: no command decides on whether an option was given (Flags().Changed) rather than on its value, no flag has a NoOptDefVal, and no cobra flag group or required-flag mark (MarkFlagsMutuallyExclusive, MarkFlagRequired, ...) is declared: all of these make passing the documented default differ from omitting the option")
 	c.flagPresenceLints()
 	c.Level = "proof"
 	c.Decides("FLAGDEF: for every option storage bound by (*pflag.FlagSet).XxxVar[P]: all registrations on that storage carry the same constant default, and no init()/package initialiser stores another value into it after registration — so the value in the storage when any command runs is the default its help text documents (pflag's XxxVar executes *p = value and records DefValue = value)")
